@@ -102,9 +102,9 @@ Lemma min_bound_length (a : val) b : length (min_bound a b) = length a.
 Proof. destruct b; cbn; auto using e1_length, e2_length. Qed.
 Lemma mult_val_length m (a : val) : length (mult_val m a) = length a.
 Proof. destruct m; cbn; auto using scal_length, e2_length. Qed.
-Lemma pwhere_length m (a b : val) : length (pwhere m a b) = length a.
-Proof. revert m b; induction a as [|u a IH]; intros m b; cbn; auto. Qed.
 Lemma simplex_val_length d (v : val) : length (simplex_val d v) = length v.
+Proof. apply map_length. Qed.
+Lemma bzip_length f (v : val) d : length (bzip f v d) = length v.
 Proof. apply map_length. Qed.
 Lemma bdiv_length (v : val) d : length (bdiv v d) = length v.
 Proof. apply map_length. Qed.
@@ -112,7 +112,7 @@ End G.
 
 #[export] Hint Rewrite @get_length @pzip_length @e1_length @e2_length @lin_length @scal_length
   @zeros_like_length @idiv_sval_length @max_bound_length @min_bound_length @mult_val_length
-  @pwhere_length @simplex_val_length @bdiv_length seq_length map_length firstn_length skipn_length
+  @simplex_val_length @bdiv_length @bzip_length seq_length map_length firstn_length skipn_length
   app_length : len.
 
 (* ------------------------------------------------------------ automation *)
